@@ -5,7 +5,8 @@ import math
 
 RULE = ("random pairs of planar segments and polylines (1..4 segments each, float data): transversal crossings strictly inside segments "
         "(several per pair), disjoint pairs with overlapping and with disjoint bounding boxes; a few degree-2/3 and rational pairs (soundness "
-        "conditions only).  Non-trivial: more than one segment on a side or at least one crossing; distinct = distinct (A, B).")
+        "conditions only).  Non-trivial: more than one segment on a side or at least one crossing; distinct = distinct (A, B)."
+        " Also: single-span operands that clean() could reduce.")
 EXPLANATION = ("L3: the exact crossing oracle (`geom.cross`, Cramer over Q on every pair of segments) lists all meeting pairs and classifies the "
                "pair as transversal / touching / degenerate; every returned pair is re-evaluated (|A(t)-B(u)| <= 1e-6, inside both intervals, no "
                "duplicates), disjoint curves must give the empty tuple, and every transversal crossing must be present.")
